@@ -407,8 +407,7 @@ c.ensures("C02.parse_version_info.function_of_arguments", lambda a, res, cx: par
 c.ensures("C01.parse_version_info.returns_only_if_accepted", lambda a, res, cx: ACCEPTS(V.z3str(a.raw_pattern), V.z3str(a.version_str)))
 c.exsures(version.PatternError, "C01.parse_version_info.pattern_error_iff_not_accepted", lambda a, exc, cx: z3.Not(ACCEPTS(V.z3str(a.raw_pattern), V.z3str(a.version_str))))
 c.exsures(_re.error)  # malformed pattern text (unbalanced brackets): re.compile fails
-c.exsures(ValueError)
-c.trusted = "callers' view; the body is verified separately (contracts/v2version_parse.py) against the regex-match model A-re"
+c.trusted = "callers' view; the body is verified separately (contract variant 'body' in contracts/parse_version.py) against the regex-match model A-re"
 
 
 def _fmt_effects(a, st, outcome):
